@@ -455,7 +455,7 @@ theorem boxed_vals (ty : List (String × String)) (cnt : Nat) (v : SetVal α) :
     (too short = IndexError, a ragged row among those used = ValueError and nothing stored). -/
 theorem setItem_mask_refines (c : PCol α) (hw : c.WF = true) (ha : c.aligned) (m : List Bool) (v : SetVal α) :
     (NArr.setItem c (.mask m) v).map PCol.rows = Spec.setItem c.ty c.rows (.mask m) v := by
-  unfold NArr.setItem Spec.setItem setItemMask Spec.keyPositions
+  unfold NArr.setItem Spec.setItem setItemMask Spec.keyPositions setItemApply
   rw [PCol.rows_length]
   by_cases hlen : m.length = c.len
   · simp only [hlen, ne_eq, not_true_eq_false, if_false, bind, Except.bind, pure, Except.pure, Bool.false_eq_true]
